@@ -17,7 +17,11 @@ from ..explore import Env, HarnessError
 PID = "C18"
 LEVEL = "model_checking"
 GETTERS = ("results", "short", "long", "debug")
+GETTER_FN = {"results": "get_results", "short": "get_results_short",
+             "long": "get_results_long", "debug": "get_debug"}
 OPS = ("solve",) + GETTERS
+TICK_S = 7          # a 'tick' lets 7 virtual seconds pass (time limit 5 s)
+TL = 5
 SKIP_FIELDS = {"solutionTime", "solutionCpuTime", "modifiedVariables",
                "modifiedConstraints", "resolveOK", "_vf_hash"}
 
@@ -67,7 +71,7 @@ def digest(S):
     return hashlib.blake2b(repr(c).encode(), digest_size=12).hexdigest()
 
 
-def build(text, tail, hist):
+def build(text, tail, hist, tl=None, probe=True):
     """Replay a history on a fresh Solver.  hist: list of (op, choice) with
     choice = index of the optimal class at the last underlying solve of a
     'solve' op (None for getters).  Returns (S, outputs, alts, exc) where
@@ -117,7 +121,10 @@ def build(text, tail, hist):
                 before = len(env.trace)
                 try:
                     if op == "solve":
-                        S.solve()
+                        S.solve(timeLimit=tl)
+                        out = None
+                    elif op == "tick":
+                        clk.advance_us((TICK_S) * 1_000_000)
                         out = None
                     elif op == "results":
                         out = S.get_results()
@@ -146,10 +153,21 @@ def build(text, tail, hist):
                         break
                 else:
                     alts.append(0 if op == "solve" else None)
+            if not changed:
+                dg = digest(S) + (":%d" % clk.us if tl is not None else "")
+                probes = {}
+                if probe:
+                    for g in GETTERS:
+                        try:
+                            probes[g] = getattr(S, GETTER_FN[g])()
+                        except HarnessError:
+                            raise
+                        except Exception as e:     # noqa
+                            probes[g] = lprun.exc_record(e, g)
         finally:
             vclock.uninstall()
         if not changed:
-            return S, outputs, alts
+            return S, outputs, alts, dg, probes
     raise HarnessError("history replay did not converge")
 
 
@@ -157,36 +175,71 @@ def crit_values(inst, crits, twopl, M):
     return [ref.criterion_key(inst, c, twopl)(M) for c in crits]
 
 
-def explore_histories(inst, text, tail, crits, pc, twopl, tally, max_depth, max_solves):
-    """BFS over histories; returns number of states."""
+def last_solve_prefix(hist):
+    li = max(i for i, (op, _) in enumerate(hist) if op == "solve")
+    return hist[:li + 1]
+
+
+def explore_histories(inst, text, tail, crits, pc, twopl, tally, max_depth, max_solves,
+                      tl=None):
+    """BFS over histories; a state is the digest of the object graph (plus the
+    virtual clock when a time limit is set).  Oracle per explored history:
+    (a) no getter in the history raised; (b) the texts all four getters return
+    at the end of the history equal the texts they return right after the
+    history's last solve; (c) after every solve: status and criterion values as
+    after the first solve, matching valid."""
     seen = {}
     frontier = collections.deque()
-    h0 = [("solve", 0)]
-    frontier.append(h0)
+    frontier.append([("solve", 0)])
     nstates = 0
-    base = {"instance": I.to_json(inst), "file": text, "argv": list(tail)}
-    first = True
+    base = {"instance": I.to_json(inst), "file": text, "argv": list(tail), "time_limit": tl}
+    probe_cache = {}
+    ops = OPS + (("tick",) if tl is not None else ())
+    first_probe = None
     while frontier:
         hist = frontier.popleft()
-        S, outputs, alts = build(text, tail, hist)
+        S, outputs, alts, d, probes = build(text, tail, hist, tl)
         tally.inc("executions")
         tally.inc("transitions")
-        # ---- oracle on this history
-        bad = judge_history(inst, crits, pc, twopl, hist, outputs)
+        bad = None
+        for (op, _), out in zip(hist, outputs):
+            if isinstance(out, dict):
+                kind = "solve-exc" if op == "solve" else "getter-exc:" + op
+                bad = ("%s:%s" % (kind, out["fingerprint"]),
+                       "%s raised %s (history %r)" % (op, out["message"], hist))
+                break
+        key = tuple(last_solve_prefix(hist))
+        if hist[-1][0] == "solve":
+            probe_cache[key] = probes
+        ref_probes = probe_cache.get(key)
+        if bad is None and ref_probes is None:
+            _, _, _, _, ref_probes = build(text, tail, list(key), tl)
+            probe_cache[key] = ref_probes
+        if bad is None:
+            for g in GETTERS:
+                a, b = ref_probes[g], probes[g]
+                if isinstance(b, dict):
+                    bad = ("getter-exc:%s:%s" % (g, b["fingerprint"]),
+                           "getter %s raised after history %r: %s" % (g, hist, b["message"]))
+                    break
+                if a != b:
+                    since = [op for op, _ in hist[len(key):]]
+                    bad = ("getter-text-changed:%s:after-%s" % (g, "+".join(sorted(set(since))) or "nothing"),
+                           "getter %s returns a different text after %r than right after the solve "
+                           "(history %r)" % (g, since, hist))
+                    break
+        if bad is None and hist[-1][0] == "solve" and tl is None:
+            bad = judge_resolve(inst, crits, pc, twopl, hist, probes, first_probe)
+            if first_probe is None:
+                first_probe = probes
         if bad:
             v = dict(base)
             v["history"] = [list(h) for h in hist]
             v["fingerprint"], v["what"] = bad
             tally.violation(v)
-        if first:
-            first = False
-            if tally.c.get("executions", 0) % 5 == 1:
-                tally.sample({"file": text, "argv": list(tail),
-                              "history": [list(h) for h in hist]})
-        d = digest(S)
-        if tally.c["executions"] % 25 == 0:
-            S2, _, _ = build(text, tail, hist)
-            if digest(S2) != d:
+        if tally.c["executions"] % 40 == 0:
+            _, _, _, d2, _ = build(text, tail, hist, tl, probe=False)
+            if d2 != d:
                 raise HarnessError("state digest not deterministic for %r %r" % (tail, hist))
             tally.inc("determinism_rechecks")
         if d in seen:
@@ -194,64 +247,49 @@ def explore_histories(inst, text, tail, crits, pc, twopl, tally, max_depth, max_
             continue
         seen[d] = hist
         nstates += 1
-        # alternatives of the last solve op (other optimal classes)
-        li = max(i for i, (op, _) in enumerate(hist) if op == "solve")
         if hist[-1][0] == "solve" and hist[-1][1] == 0 and alts[-1]:
             for alt in range(1, alts[-1]):
                 frontier.append(hist[:-1] + [("solve", alt)])
         if len(hist) >= max_depth:
             continue
-        for op in OPS:
+        for op in ops:
             if op == "solve" and sum(1 for o, _ in hist if o == "solve") >= max_solves:
+                continue
+            if op == "tick" and sum(1 for o, _ in hist if o == "tick") >= 1:
                 continue
             frontier.append(hist + [(op, 0 if op == "solve" else None)])
     tally.inc("states", nstates)
     if nstates > 1:
         tally.inc("nontrivial")
+    if tally.c.get("executions", 0) and len(tally.samples) < 2:
+        tally.sample({"file": text, "argv": list(tail), "time_limit": tl,
+                      "states": nstates, "last_history": [list(h) for h in hist]})
     return nstates
 
 
-def judge_history(inst, crits, pc, twopl, hist, outputs):
-    """Return (fingerprint, what) or None."""
-    since = {}          # getter -> text since the last solve
-    first_status = None
-    first_vals = None
-    for i, ((op, _), out) in enumerate(zip(hist, outputs)):
-        if op == "solve":
-            since = {}
-            if isinstance(out, dict):
-                return ("solve-exc:" + out["fingerprint"],
-                        "solve #%d raised %s" % (i, out["message"]))
-            continue
-        if isinstance(out, dict):
-            return ("getter-exc:%s:%s" % (op, out["fingerprint"]),
-                    "getter %s raised after a completed solve: %s (history %r)" % (
-                        op, out["message"], hist[:i + 1]))
-        if op in since and since[op] != out:
-            return ("getter-not-idempotent:" + op,
-                    "getter %s returned different texts between two solves (history %r)" % (
-                        op, hist[:i + 1]))
-        since[op] = out
-        if op in ("results", "short", "long"):
-            d = lprun.parse_results(out)
-            status = d.get("pulp_status")
-            M = tuple(d["matching"]) if "matching" in d else None
-            if M is not None and ref.validity_defects(inst, M, pc):
-                return ("resolve-invalid-matching",
-                        "after history %r the matching %r is not valid" % (hist[:i + 1], M))
-            vals = crit_values(inst, crits, twopl, M) if M is not None and \
-                not ref.validity_defects(inst, M, pc) else None
-            if first_status is None:
-                first_status, first_vals = status, vals
-            else:
-                if status != first_status:
-                    return ("resolve-status-changed",
-                            "status %r after re-solve, %r after the first solve (history %r)" % (
-                                status, first_status, hist[:i + 1]))
-                if vals != first_vals:
-                    return ("resolve-criterion-value-changed",
-                            "criterion values %r after re-solve, %r after the first solve "
-                            "(history %r)" % (vals, first_vals, hist[:i + 1]))
+def judge_resolve(inst, crits, pc, twopl, hist, probes, first):
+    """After every solve: same status, same criterion values, valid matching."""
+    out = probes["short"]
+    if not isinstance(out, str):
+        return None
+    d = lprun.parse_results(out)
+    status = d.get("pulp_status")
+    M = tuple(d["matching"]) if "matching" in d else None
+    if M is not None and ref.validity_defects(inst, M, pc):
+        return ("resolve-invalid-matching",
+                "after history %r the matching %r is not valid" % (hist, M))
+    if first is None or not isinstance(first.get("short"), str):
+        return None
+    d0 = lprun.parse_results(first["short"])
+    if d0.get("pulp_status") != status:
+        return ("resolve-status-changed", "status %r after history %r, %r after the first solve"
+                % (status, hist, d0.get("pulp_status")))
+    if M is not None and "matching" in d0:
+        v0 = crit_values(inst, crits, twopl, tuple(d0["matching"]))
+        v1 = crit_values(inst, crits, twopl, M)
+        if v0 != v1:
+            return ("resolve-criterion-value-changed",
+                    "criterion values %r after history %r, %r after the first solve" % (v1, hist, v0))
     return None
 
 
@@ -272,31 +310,90 @@ INSTS = [
 ]
 
 OPTS = [
-    (False, False, ()),
-    (False, False, (("maxsize", ()),)),
-    (False, False, (("maxsize", ()), ("mincost", ()))),
-    (False, False, (("lsb", ()),)),
-    (True, False, ()),
-    (True, False, (("minsize", ()),)),
-    (False, True, (("maxsize", ()),)),
-    (True, True, (("gen", ()), ("lmb", ()))),
+    # (pc, stab, crits, time limit)
+    (False, False, (), None),
+    (False, False, (("maxsize", ()),), None),
+    (False, False, (("maxsize", ()), ("mincost", ())), None),
+    (False, False, (("lsb", ()),), None),
+    (True, False, (), None),
+    (True, False, (("minsize", ()),), None),
+    (False, True, (("maxsize", ()),), None),
+    (True, True, (("gen", ()), ("lmb", ())), None),
+    (False, False, (("maxsize", ()), ("mincost", (1, 3))), None),
+    (False, False, (("maxsize", ()), ("minsqcost", (2, 1))), None),
+    (False, False, (("maxsize", ()), ("lmb", ())), None),
+    (False, False, (("lmb", ()), ("gre", (1,))), None),
+    (False, False, (("mincostlsb", (1, 2)),), None),
+    (False, False, (("maxsize", ()),), TL),
+    (True, False, (("gen", ()),), TL),
+]
+
+# option sets run on the broader instance set with a smaller depth
+OPTS_WIDE = [
+    (False, False, (("maxsize", ()), ("mincost", (1, 3))), None),
+    (False, False, (("maxsize", ()), ("mincost", (3, 1))), None),
+    (False, False, (("maxsize", ()), ("minsqcost", (1, 2))), None),
+    (False, False, (("maxsize", ()), ("lmb", ())), None),
+    (False, False, (("lmb", ()),), None),
+    (False, False, (("maxsize", ()), ("mincostlsb", (1, 2))), None),
+    (False, False, (("maxsize", ()), ("gen", (2,))), None),
+    (True, True, (("maxsize", ()), ("gre", (1,))), None),
+    (False, False, (), TL),
 ]
 
 
+def wide_instances():
+    out = []
+    for ns, np_, nl, sp, le, lp in I.Q_STRUCTS:
+        for name, pq, lq3 in I.quota_profiles3(ns, np_, nl, le):
+            if name in ("unit", "cap2", "p1zero", "leclq1", "lq=uq2"):
+                out.append(I.make3(ns, np_, nl, sp, le, lp, pq, lq3))
+        if nl == 2:
+            # non-ascending lecturer upper quotas / targets
+            out.append(I.make3(ns, np_, nl, sp, le, lp, tuple((0, 2) for _ in range(np_)),
+                               ((0, 1, 2), (0, 0, 1))))
+            out.append(I.make3(ns, np_, nl, sp, le, lp, tuple((0, 2) for _ in range(np_)),
+                               ((1, 2, 2), (0, 1, 1))))
+    for x in I.family_HR(True, sizes=[(2, 2)]):
+        if x.pq in (((1, 2), (1, 2)), ((0, 2), (0, 2))) and \
+                all(len(g) == 1 for s in x.sprefs for g in s) and \
+                all(len(s) == 2 for s in x.sprefs):
+            out.append(x)
+    # 3 residents, 2 hospitals with lower quotas: weighted costs discriminate
+    sp = (((1,), (2,)), ((1,), (2,)), ((2,), (1,)))
+    for lp in ((((3,), (1,), (2,)), ((2,), (3,), (1,))), (((1,), (2,), (3,)), ((1,), (3,), (2,)))):
+        out.append(I.make2(3, 2, sp, lp, ((2, 3), (0, 2))))
+        out.append(I.make2(3, 2, sp, lp, ((1, 2), (1, 2))))
+    return out
+
+
+WIDE = wide_instances()
+
+
 def work(item, tally):
-    ii, oi, depth, nsolves = item
-    name, inst = INSTS[ii]
-    pc, stab, crits = OPTS[oi]
+    kind, ii, oi, depth, nsolves = item
+    if kind == "base":
+        name, inst = INSTS[ii]
+        pc, stab, crits, tl = OPTS[oi]
+    else:
+        inst = WIDE[ii]
+        pc, stab, crits, tl = OPTS_WIDE[oi]
+    R = ref.R(inst)
+    crits = tuple(c for c in crits if not (c[0] == "gen" and c[1] and c[1][0] > R))
     text = I.render(inst)
     tail = lpcheck.tail_for(inst, pc, stab, list(crits))
-    explore_histories(inst, text, tail, list(crits), pc, True, tally, depth, nsolves)
+    explore_histories(inst, text, tail, list(crits), pc, True, tally, depth, nsolves, tl)
     tally.inc("items")
 
 
 def main(tier):
     t0 = time.time()
     depth, nsolves = (6, 3) if tier == "quick" else (7, 4)
-    items = [(ii, oi, depth, nsolves) for ii in range(len(INSTS)) for oi in range(len(OPTS))]
+    wdepth, wsolves = (4, 2) if tier == "quick" else (5, 3)
+    items = [("base", ii, oi, depth, nsolves) for ii in range(len(INSTS))
+             for oi in range(len(OPTS))]
+    items += [("wide", ii, oi, wdepth, wsolves) for ii in range(len(WIDE))
+              for oi in range(len(OPTS_WIDE))]
     tally = pool.run(work, items, chunksize=1)
     c = tally.c
     coverage = {
@@ -308,20 +405,26 @@ def main(tier):
         "evaluations": c.get("executions", 0),
         "distinct_nontrivial": c.get("nontrivial", 0),
         "rule": "explicit-state BFS over call histories {solve,get_results,get_results_short,"
-                "get_results_long,get_debug}* starting with solve, depth <= %d, <= %d solves, on "
-                "%d instances x %d option sets; a state is the digest of the whole Solver/Model "
-                "object graph reached by replaying the history on a fresh real Solver; every solve "
-                "branches over every optimal class the back end may return; "
+                "get_results_long,get_debug}* (plus one 'tick' = 7 virtual seconds when a 5 s time "
+                "limit is set) starting with solve; %d base instances x %d option sets at depth <= "
+                "%d with <= %d solves, %d further instances x %d option sets (weighted criteria, "
+                "load criteria, non-ascending lecturer quotas) at depth <= %d with <= %d solves; a "
+                "state is the digest of the whole Solver/Model object graph reached by replaying the "
+                "history on a fresh real Solver; every solve branches over every optimal class the "
+                "back end may return; at the end of every history all four getters are probed and "
+                "compared with their texts right after the history's last solve; "
                 "traces_validated_against_impl = histories executed on the real implementation "
                 "(every explored transition is a real call); non-trivial = items with more than "
-                "one distinct state" % (depth, nsolves, len(INSTS), len(OPTS)),
+                "one distinct state" % (len(INSTS), len(OPTS), depth, nsolves, len(WIDE),
+                                        len(OPTS_WIDE), wdepth, wsolves),
         "histories_merged_into_known_states": c.get("merged", 0),
         "digest_determinism_rechecks": c.get("determinism_rechecks", 0),
         "items": c.get("items", 0),
     }
     assumptions = [
-        "LP mode only; timeLimit=None; back end = FakeCBC (every optimal class at the last underlying solve of each solve call)",
-        "state digest covers the Solver/Options_parser/Model/LP_Solver/LpProblem object graph except PuLP's wall-clock fields",
+        "LP mode; back end = FakeCBC (every optimal class at the last underlying solve of each solve call)",
+        "state digest covers the Solver/Options_parser/Model/LP_Solver/LpProblem object graph except PuLP's wall-clock fields; with a time limit the virtual clock is part of the state",
+        "the clock is owned in every matchingproblems module that names `datetime`; re-solving under a time limit is not judged (time_start is taken at construction)",
         "depth and number of solves bounded as stated",
     ]
     return evidence.conclude(PID, tier, LEVEL, tally, coverage, assumptions, t0)
@@ -330,16 +433,26 @@ def main(tier):
 def replay(path):
     with open(path) as f:
         p = json.load(f)
-    inst = I.from_json(p["instance"])
     hist = [(h[0], h[1]) for h in p["history"]]
-    S, outputs, alts = build(p["file"], p["argv"], hist)
-    print(p["argv"])
+    tl = p.get("time_limit")
+    S, outputs, alts, d, probes = build(p["file"], p["argv"], hist, tl)
+    _, _, _, _, ref_probes = build(p["file"], p["argv"], last_solve_prefix(hist), tl)
+    print(p["argv"], "time_limit", tl)
     print(p["file"])
+    print("history:", hist)
+    bad = False
     for (op, ch), out in zip(hist, outputs):
-        print("---", op, ch)
-        print(out)
+        if isinstance(out, dict):
+            print("op", op, "raised", out)
+            bad = True
+    for g in GETTERS:
+        if probes[g] != ref_probes[g] or isinstance(probes[g], dict):
+            print("--- getter", g, "right after the last solve:")
+            print(ref_probes[g])
+            print("--- getter", g, "at the end of the history:")
+            print(probes[g])
+            bad = True
     print("recorded:", p["fingerprint"], p["what"])
-    bad = any(isinstance(o, dict) for o in outputs) or "not-idempotent" in p["fingerprint"] \
-        or "resolve" in p["fingerprint"]
+    bad = bad or p["fingerprint"].startswith("resolve")
     print("REPRODUCED" if bad else "NOT REPRODUCED")
     return 1 if bad else 0
